@@ -1259,10 +1259,11 @@ Error JitAllocator::scoped_write(WriteScopeData& scope, Span& span, WriteFunc wr
 //
 //   info[0] = blocks, info[1] = blocks flagged empty, info[2] = blocks that hold nothing but initial padding,
 //   info[3] = allocations counted from stop bits, info[4] = used bytes counted from used bits (incl. padding),
-//   info[5] = reserved bytes, info[6] = padding bytes, info[7] = pool_count
+//   info[5] = reserved bytes, info[6] = padding bytes, info[7] = pool_count,
+//   info[8 + 3 * pool_id + {0, 1, 2}] = {blocks, longest free run [granules], granularity} of each pool (info has 20 slots)
 extern "C" int asmjit_verif_jitallocator_check(const void* allocator_ptr, char* msg, size_t msg_size, size_t* info) {
   const JitAllocator* allocator = static_cast<const JitAllocator*>(allocator_ptr);
-  for (size_t i = 0; i < 8; i++) {
+  for (size_t i = 0; i < 20; i++) {
     info[i] = 0;
   }
   if (msg_size) {
@@ -1287,6 +1288,7 @@ extern "C" int asmjit_verif_jitallocator_check(const void* allocator_ptr, char* 
     size_t flagged_empty = 0;
     size_t area_size_sum[2] {};
     size_t area_used_sum[2] {};
+    size_t pool_max_free_run = 0;
 
     JitAllocatorBlock* prev = nullptr;
     bool cursor_found = pool.cursor == nullptr;
@@ -1410,6 +1412,7 @@ extern "C" int asmjit_verif_jitallocator_check(const void* allocator_ptr, char* 
       area_size_sum[stat_index] += area_size;
       area_used_sum[stat_index] += used;
       total_allocations += allocations;
+      pool_max_free_run = Support::max<size_t>(pool_max_free_run, max_free_run);
 
       info[3] += allocations;
       info[4] += size_t(used) * pool.granularity;
@@ -1440,6 +1443,11 @@ extern "C" int asmjit_verif_jitallocator_check(const void* allocator_ptr, char* 
 
     info[0] += block_count;
     info[1] += flagged_empty;
+    if (pool_id < 4) {
+      info[8 + 3 * pool_id + 0] = block_count;
+      info[8 + 3 * pool_id + 1] = pool_max_free_run;
+      info[8 + 3 * pool_id + 2] = pool.granularity;
+    }
   }
 
   if (total_allocations != impl->allocation_count) {
